@@ -40,7 +40,8 @@ from lib.core import Ctx, enc, rat
 from lib import stage
 
 ID = "C20"
-LEAN_TARGETS = ["AiuVerif.Props.C20"]
+NEEDS_GEN = True
+LEAN_TARGETS = ["AiuVerif.Props.C20", "AiuVerif.Props.Order"]
 THEOREMS = [
     "AiuVerif.C20.hull_spec",
     "AiuVerif.C20.hull_spec_by_sequence",
@@ -51,6 +52,7 @@ THEOREMS = [
     "AiuVerif.C20.summarize_raises",
     "AiuVerif.C20.key_collision_merges",
     "AiuVerif.C20.key_zero_not_summarized",
+    "AiuVerif.Order.comm_order",   # registration order / guards / shared context, re-decided on the generated sites
 ]
 RULE = ("slice streams for collection -> barrier -> apply: exhaustive streams of up to 3 (quick) / 4 (thorough) "
         "SenRdma slices over 2 sequence numbers x 2 jobs x 3 start/end grid points x 2 peers; random structured streams "
